@@ -239,6 +239,29 @@ func (p *c04) Run(rec *core.Recorder, seed uint64, idx int, tier string) {
 		p.stray(rec, r)
 		return
 	}
+	if idx%24 == 21 {
+		// literal text in macro bodies, when the value of a macro call is held while other macros run
+		clean := func() string {
+			seg := c04Segment(r)
+			for c04BadSegment(seg, true) || seg == "" {
+				seg = strings.NewReplacer("{{", "{ ", "{%", "{ ", "{#", "{ ").Replace(seg) + "m."
+				if strings.HasSuffix(seg, "{") || strings.HasSuffix(seg, "\\") {
+					seg += "."
+				}
+			}
+			return seg
+		}
+		s1, s2, s3 := clean(), clean(), clean()
+		if r.P(1, 3) {
+			s1 = strings.Repeat(s1, 1+2000/len(s1))
+		}
+		src := "{% macro m1() %}" + s1 + "{% endmacro %}{% macro m2() %}" + s2 + "{% endmacro %}{% macro w(x) %}<{{ x }}>" + s3 + "{% endmacro %}" +
+			"{% set h = m1() %}{% set f = m2() %}{{ h }}|{{ f }}|{{ m1() ~ m2() }}|{{ w(m2()) }}|{{ h }}{% for i in [1, 2] %}{% set g = m2() %}{{ m1() }}{{ g }}{% endfor %}|{{ [m1(), m2()]|join('+') }}"
+		want := s1 + "|" + s2 + "|" + s1 + s2 + "|<" + s2 + ">" + s3 + "|" + s1 + s1 + s2 + s1 + s2 + "|" + s1 + "+" + s2
+		rec.Count("held-macro-values", 1)
+		p.checkExact(rec, "macro-text", src, want, true)
+		return
+	}
 	if idx%24 == 15 {
 		// literal text in the body of a loop appears once per iteration, however much the loop writes in all (tens of
 		// kilobytes here), before and after other text
